@@ -82,6 +82,7 @@ package httpcache
 //@   requires wired(r) && req != nil && req.URL != nil && freshness != nil && freshness.Age != nil          # name: well-formed
 //@   requires r.swrTimeout > 0                                             # name: timeout-configured   props: C20
 //@   requires !reqOIC(req)                                                 # name: not-only-if-cached   props: C18
+//@   requires condReq != nil && condReq.URL != nil && !reqOIC(condReq)      # name: conditional-request-not-only-if-cached   props: C18
 //@   requires req.Method == "GET" && hget(req.Header, "Range") == ""       # name: plain-get   props: C06 C03
 //@   requires hasArr(ccReq) == dirsHas(ccText(req.Header))                 # name: request-directives-are-the-requests
 //@   requires refs == indexRead || len(refs) == 0                          # name: refs-is-the-index-read-in-this-exchange   props: C08
@@ -97,6 +98,7 @@ package httpcache
 //@   requires errc != nil && cap(*errc) >= 1                                # name: result-channel-has-room-for-the-single-send   props: C20
 //@   requires r != nil && wired(*r) && req != nil && *req != nil && (*req).URL != nil && freshness != nil && *freshness != nil && (*freshness).Age != nil
 //@   requires !reqOIC(*req)
+//@   requires condReq != nil && *condReq != nil && (*condReq).URL != nil && !reqOIC(*condReq)
 //@   requires (*req).Method == "GET" && hget((*req).Header, "Range") == ""
 //@   requires hasArr(*ccReq) == dirsHas(ccText((*req).Header))
 //@   requires *refs == indexRead || len(*refs) == 0
